@@ -34,6 +34,12 @@ def gen_cases(seed, tier):
                 else:
                     ops.append((how, str(p)))
             cases.append(dict(id="m%d" % len(cases), pkg=pkg, comp=comp, n=n, extra=extra, seed=s, ops=ops, unavailable=sorted(sub)))
+            # the check must still cover the packs that are present: corrupt one present pack, before or after a missing one
+            present = [q for q in separate if q not in sub and (q != 1 or pkg != "one")]
+            if sub and present:
+                for q in (present[:1] + present[-1:]) if len(present) > 1 else present:
+                    cases.append(dict(id="m%d" % len(cases), pkg=pkg, comp=comp, n=n, extra=extra, seed=s,
+                                      ops=ops + [("corrupt", str(q))], unavailable=sorted(sub), corrupted=[q]))
     return cases
 
 
@@ -49,6 +55,8 @@ def run(tier, seed, replay=None):
     for c in cases:
         if "unavailable" not in c:
             c["unavailable"] = sorted(set(int(op[1]) for op in c.get("ops", []) if op[0] in ("remove", "dirat", "swap")))
+        if "corrupted" not in c:
+            c["corrupted"] = sorted(set(int(op[1]) for op in c.get("ops", []) if op[0] == "corrupt"))
     rm = P.run_cases(res, cases, seed)
     if rm is None:
         return res.finish()
@@ -64,7 +72,9 @@ def run(tier, seed, replay=None):
             bad = "creation failed: %s" % r[:2]
         elif not fin or fin[0] != "open OK":
             bad = "container with unavailable content packs does not open: %s" % fin[:1]
-        elif "check true" not in fin:
+        elif c.get("corrupted") and "check true" in fin:
+            bad = "a present pack (%s) is corrupted but the container check answers true (the check does not cover every present pack)" % c["corrupted"]
+        elif not c.get("corrupted") and "check true" not in fin:
             bad = "check of the present packs is not true: %s" % [l for l in fin if l.startswith("check")]
         else:
             bl = [l for l in base if l.startswith(("index", "entry"))]
@@ -79,6 +89,8 @@ def run(tier, seed, replay=None):
                     bad = "an entry changed: %s -> %s" % (a, b)
                 for m in re.finditer(r"c(\d+):(\d+)=(\S+)", b):
                     p, i, obs = int(m.group(1)), m.group(2), m.group(3)
+                    if p in c.get("corrupted", []):
+                        continue
                     if p in c["unavailable"]:
                         nmissing += 1
                         want = "MISSING:%s" % uu.get(p)
@@ -89,6 +101,9 @@ def run(tier, seed, replay=None):
         if bad:
             res.violation("C11: %s (case %s: pkg=%s ops=%s)" % (bad, c["id"], c["pkg"], c.get("ops")), P.case_text(c, seed) + "# " + bad + "\n")
         rr, mm = P.canon_rust_state(fin, mfin), P.canon_model_state(mfin)
+        if c.get("corrupted"):
+            strip = lambda ls: [re.sub(r"(c\d+:\d+)=\S+", r"\1", l) for l in ls]
+            rr, mm = strip(rr), strip(mm)
         if rr != mm:
             dis += 1
             if not bad:
